@@ -26,6 +26,8 @@ PROPS = {
 
 
 def main():
+    from . import arena
+    arena.install()
     argv = sys.argv[1:]
     if not argv:
         print('usage: check <ID> [--tier quick|thorough] [--replay path]')
